@@ -36,3 +36,32 @@ CHECKS["C02"] = dict(
     design_ref="DESIGN.md 4 C02",
     assumptions=["reference geometry is correct", "expand_space_dimension read as independent copies (DESIGN.md 6)"],
 )
+
+CHECKS["C03"] = dict(
+    title="Box, BD-shape and octagon results contain the exact result, for every type",
+    quick=T([("wr_prog@C03@G1", 1), ("wr_prog@C03@G2", 1), ("wr_prog@C03@G3", 1)], cases=60000, secs=45),
+    thorough=T([("wr_prog@C03@G1", 1), ("wr_prog@C03@G2", 1), ("wr_prog@C03@G3", 1), ("wr_prog@C03@G4", 1)], cases=1200000, secs=600, flavour="san"),
+    rule="case = generated program over BD_Shape<T>, Octagonal_Shape<T>, Box<ITV> for rational, integer, bounded native integer and "
+         "floating-point T (bounds near the limits of T included); model of an object = exact rational set denoted by its own constraints(); "
+         "after each step the exact result computed by the reference geometry must be included in the result, definite answers must be true. "
+         "Non-trivial: a step where rounding / overflow / inexpressibility actually enlarged the result; distinct = hash of the tape.",
+    technique="property-based testing (generated operation sequences, soundness oracle from an exact reference geometry)",
+    level_text="Generated-input exploration of soundness (result contains the exact result) for every numeric instantiation.",
+    level_note="dim <= 3; exact rational arithmetic in the oracle; floating-point instances only under g++ -frounding-math.",
+    design_ref="DESIGN.md 4 C03",
+    assumptions=["reference geometry is correct", "constraints() of a shape denotes exactly the stored bounds"],
+)
+CHECKS["C04"] = dict(
+    title="Over rationals, boxes/BD shapes/octagons are exact and best where documented",
+    quick=T([("wr_prog@C04", 1)], cases=60000, secs=45),
+    thorough=T([("wr_prog@C04", 1)], cases=1200000, secs=600, flavour="san"),
+    rule="case = generated program over BD_Shape<mpq_class>, Octagonal_Shape<mpq_class>, Rational_Box with observers interleaved (closed / "
+         "non-closed / reduced matrices); predicates compared with the exact answer, exact operators with the exact set, join / difference / "
+         "constructors with the best abstraction alpha(S) computed by LP, *_if_exact verdict with exact union covering. "
+         "Non-trivial: a mutator on a non-empty non-universe receiver whose object went through >= 2 status vectors.",
+    technique="property-based testing (generated operation sequences, exact and best-abstraction oracles by LP)",
+    level_text="Generated-input exploration with exact predicates and best-abstraction oracles for the rational instances.",
+    level_note="dim <= 3; reference trusted; expressibility of affine relations decided by a conservative syntactic rule.",
+    design_ref="DESIGN.md 4 C04",
+    assumptions=["reference geometry is correct"],
+)
